@@ -91,6 +91,20 @@ func newOPLConfigWatcher(ctx context.Context, c *Config, target string) (*oplCon
 	}
 }
 
+// ShouldReload reports whether the namespace configuration now points to a
+// different location. The embedded memory manager's ShouldReload compares with
+// a list of namespaces, which the OPL configuration (a map) never equals, so
+// every change of the main configuration used to rebuild the watcher and lose
+// the last valid version of files that are currently invalid.
+func (nw *oplConfigWatcher) ShouldReload(newValue interface{}) bool {
+	cfg, ok := newValue.(map[string]any)
+	if !ok {
+		// the manager type changed
+		return true
+	}
+	return cfg["location"] != nw.target
+}
+
 func (nw *oplConfigWatcher) handleChange(e *watcherx.ChangeEvent) {
 	// the lock is acquired before parsing to ensure that the getters are
 	// waiting for the updated values
